@@ -25,6 +25,12 @@ def run(chk, repo):
     chk.doc("R13.2", "no negated-length slice bound; head/tail split from "
                      "the front")
     chk.doc("R13.3", "decode with the format that sized the payload")
+    chk.doc("R13.5", "subclasses of EtherCat do not re-implement the "
+                     "encoding entry point")
+    override_rule(chk, repo, "R13.5", "ebpfcat.ethercat.EtherCat",
+                  ["roundtrip"], "the encoding rules checked here for "
+                  "EtherCat.roundtrip (empty raw data, read-only tail, "
+                  "result shape) no longer describe what callers get")
     f = repo.func(SYM)
     chk.analysed(SYM)
     cfg = CFG(f)
